@@ -222,6 +222,13 @@ def run_case(case):
             A = np.tril(arr) if lower else np.triu(arr)
             X = bt.input_batch(np.full((d,), "R"), [], np.float64, max_points=200)
             compare(b0, X, X @ A.T + np.broadcast_to(loc, (d,)), f"A x + b with the {'lower' if lower else 'upper'} triangle of the given matrix")
+            # "the other elements are ignored": a caller may leave the unused triangle uninitialised (NaN / inf / huge)
+            if d >= 2:
+                for fill in (np.nan, np.inf, -np.inf, 1e300):
+                    arr2 = arr.copy()
+                    arr2[np.triu_indices(d, 1) if lower else np.tril_indices(d, -1)] = fill
+                    bf = B.TriangularAffine(jnp.asarray(loc), jnp.asarray(arr2), lower=lower)
+                    compare(bf, X[:40], X[:40] @ A.T + np.broadcast_to(loc, (d,)), f"A x + b with the ignored triangle filled with {fill}")
             for lvl in (1, 2):
                 b = perturb(b0, lvl, seed)
                 u = unwrap(b)
